@@ -2085,7 +2085,7 @@ class Backend:
                 if isinstance(j, mesonlib.File):
                     source_list += [j.absolute_path(self.source_dir, self.build_dir)]
                 elif isinstance(j, (build.CustomTarget, build.BuildTarget)):
-                    source_list += [os.path.join(self.build_dir, j.get_builddir(), o) for o in j.get_outputs()]
+                    source_list += [os.path.join(self.build_dir, self.get_target_dir(j), o) for o in j.get_outputs()]
             source_list = [os.path.normpath(s) for s in source_list]
 
             compiler: T.List[str] = []
